@@ -19,42 +19,74 @@ MANIFEST = {
             "against (coil, *shape); frame t of the output is pattern t OR acs; all rows of a frame of a line generator are equal; "
             "rank-check errors; the Gaussian rejection loop adds exactly the requested number of cells and exits for every fair "
             "candidate stream iff the request fits in the free cells; the repaired VD-Poisson bisection terminates on every finite "
-            "ordered grid and returns only within tolerance (else ValueError), while the pinned loop provably spins. Tied to the "
-            "code by translated kernels/tables (return-wrapper table of all 14 mask_func, reshape index assignments, broadcast "
-            "branches, __call__ guards, build_masking_function table) and by differential correspondence on real generator calls "
-            "with recorded draws (bit-exact masks for Random/Equispaced/Magic/Gaussian1D/Gaussian2D; wrapper contract for the "
-            "opaque rasterisations), every real call under a watchdog.",
-    "note": "Trusted: Lean kernel (+propext, Classical.choice, Quot.sound), the AST translator, the recording RandomState and the "
-            "libc rand() reconstruction of the Cython Gaussian kernels, numpy/torch reshape/tile semantics as encoded by the list "
-            "model (validated by correspondence). Partial: geometry inside the Radial/Spiral/Poisson/KtRadial/KtUniform/KtGaussian1D "
-            "patterns is an opaque input; 'returns promptly' is proved for the modelled loops (Gaussian rejection, bisection wrapper, "
-            "CIRCUS disc search on non-full masks is only run-time watchdogged); float glue (round, sqrt) enters as integers "
-            "computed by the harness.",
-    "technique": "Lean 4 proof (list induction, omega, decide on generated tables) + AST translation bridge + differential "
-                 "correspondence with recorded draws + watchdogged oracle",
+            "ordered grid and returns only within tolerance (else ValueError), while the pinned loop provably spins; the CIRCUS "
+            "largest-disc search returns by the first radius covering the grid whenever fewer than 10/11 of the cells are sampled "
+            "(and never on a full mask). The Poisson-disc rasteriser direct/common/_poisson.pyx is an executable Lean model "
+            "(exact IEEE binary32/binary64 arithmetic on dyadic rationals, recorded libc rand() stream, cos/sin as data): for "
+            "every grid, radius table, rand() stream and trig table the mask is a Bool array of nx*ny cells, every written cell "
+            "and every radius read is on the grid (the bounds-checked stops cellOutOfGrid/readOutOfGrid are unreachable), "
+            "num_actives = 1 + accepted - removed, sampled = accepted - stale, the attempt loop makes at most max_attempts "
+            "attempts, iterations <= 2(nx*ny + stale) + 1, rand() calls = 2 + iterations + 2*attempts, and the run overruns "
+            "pxs/pys exactly at an acceptance with num_actives = nx*ny (then sampled + stale + 1 = nx*ny + removed) - with "
+            "decide-checked recorded witnesses (1x2 grid: overrun with fresh cells only; 2x2: with stale acceptances after a "
+            "removal) of the known finding. Tied to the code by translated kernels/tables (return-wrapper table, reshape index "
+            "assignments, broadcast branches, __call__ guards, build_masking_function table, per-generator assembly; located "
+            "statements + guards/counter updates/grid test of the .pyx; tables over ALL classes deriving from BaseMaskFunc: no "
+            "instance/class/module state written outside construction, every concrete mask_func returns through the wrapper "
+            "(CalgaryCampinas declared out of scope), every caller in direct/ goes through __call__ with keyword arguments) and "
+            "by differential correspondence: bit-exact masks with recorded draws for Random/Equispaced/Magic/Gaussian1D/"
+            "Gaussian2D/KtUniform/KtGaussian1D/Radial/Spiral and - through the kernel model - VariableDensityPoisson (mask, "
+            "number of rand() calls, statistics; compiled kernel and bounds-checked .pyx front-end), the real bisection "
+            "traces, the IEEE operations against numpy; every real call under a watchdog.",
+    "note": "Trusted: Lean kernel (+propext, Classical.choice, Quot.sound), the AST translator and .pyx front-end, the recording "
+            "RandomState and the libc rand() reconstruction (ctypes), the float oracle props/c04_poisson.trace that supplies the "
+            "(t, cos t, sin t) rows (its own mask/counters are compared with the model's on every case), numpy/torch "
+            "reshape/tile semantics as encoded by the list model, the model's IEEE rounding (validated against numpy on every "
+            "run, not proved). Partial: KtRadial (scipy.ndimage.rotate) and the radius tables / r<1 crop of the Poisson wrapper "
+            "are inputs; 'the Poisson kernel always returns' is proved only up to the number of stale acceptances "
+            "(poisson_returns_or_stale_partial: adversarial streams can alternate stale acceptance and removal for ever); the "
+            "10/11 density hypothesis of the CIRCUS promptness theorem is checked per case on the real mask, not derived from "
+            "the pattern; randint(upper) = upper for rand() = RAND_MAX (2^-31 per draw) is a guarded stop of the model "
+            "(badIndex), shown by example; float glue (round, sqrt) enters as integers computed by the harness.",
+    "technique": "Lean 4 proof (loop invariants by induction, list/array lemmas, omega, decide +kernel on recorded runs and on "
+                 "generated tables) + AST translation bridge + differential correspondence with recorded draws (exact dyadic "
+                 "floats) + watchdogged oracle with argument forms, call histories on one object and real call sites",
 }
 TRUSTED = [
     "Lean 4.33 kernel; axioms ⊆ {propext, Classical.choice, Quot.sound}",
-    "harness/translate recipes c04 (AST -> Lean tables/kernels for subsample.py)",
-    "recording np.random.RandomState subclass assigned to mask_func.rng; libc srand/rand via ctypes (Box–Muller) for the "
-    "candidate streams of gaussian_mask_1d/2d",
+    "harness/translate recipes c04 (AST -> Lean tables/kernels for subsample.py and, through boot.pyx_to_python, _poisson.pyx)",
+    "recording np.random.RandomState subclass assigned to mask_func.rng; libc srand/rand via ctypes for the candidate streams of "
+    "gaussian_mask_1d/2d (Box–Muller) and the rand() stream of _poisson",
+    "props/c04_poisson.trace: float oracle following the MODEL's control flow with C float semantics, supplying math.cos/math.sin "
+    "of the model's own t (the model checks t; mask, rand() count and counters of the oracle are compared with the model's)",
+    "the model's IEEE-754 round-to-nearest-even on dyadic rationals (Model/C04Poisson: round, roundQ) — validated against numpy "
+    "float32/float64 arithmetic on every run (fop/fcmp/prand cases), not proved; overflow not modelled",
     "numpy reshape / tile / torch .bool() semantics as encoded by reshapeAndAddCoil / broadcastRows (validated by correspondence)",
-    "rasterisation interiors (CIRCUS orderings, scipy rotate, _poisson, toeplitz/resolve_duplicates) are opaque inputs",
-    "the scripted stand-in for `_poisson` used to drive the real bisection wrapper",
+    "KtRadial rasterisation (scipy rotate), the Poisson wrapper's radius tables and `r < 1` crop, toeplitz are inputs",
+    "the scripted stand-in for `_poisson` used to drive the real bisection wrapper; the recorder wrapped around `_poisson` in "
+    "real generator calls (records arguments, result and the next rand() value)",
 ]
 ASSUMPTIONS = [
-    "Python float glue (round(n*cf), round(n/R), int(sqrt(rows*cols*cf/pi)), uniform < prob, np.around(arange)) is evaluated "
-    "by the harness with the same expressions and enters the model as integers / booleans",
-    "libc rand() never returns 0 in the sampled streams (log(0)); probability 2^-31 per draw",
+    "Python float glue (round(n*cf), round(n/R), int(sqrt(rows*cols*cf/pi)), uniform < prob, np.around(arange), the bisection "
+    "verdict |R_actual - R| < tol, r < 1) is evaluated by the harness with the same expressions and enters the model as "
+    "integers / booleans",
+    "libc rand() never returns 0 (log(0) in the Gaussian kernels) or RAND_MAX (randint(upper) = upper in _poisson) in the "
+    "sampled streams; probability 2^-31 per draw",
     "feasible (acceleration, centre fraction) = the ACS region fits in the budget with at least one more sample "
     "(maskgen_common.feasible); VariableDensityPoisson may still raise its documented ValueError",
+    "gcc evaluates float*float in binary32 and pow(x, 2.0) as x*x (FLT_EVAL_METHOD 0; checked: the float oracle equals the "
+    "compiled kernel bit for bit on every sampled case)",
 ]
-RULE = ("one case = one real generator call (mask or return_acs) or one kernel call compared with the model; generators x modes "
-        "x ranks 3..5 x rows/cols from {8..80} incl. odd, even, non-square; non-trivial = a generator call that returned a mask "
-        "with at least two rows and columns (kernels: a non-degenerate input); distinct = distinct protocol line")
+RULE = ("one case = one real generator call (mask or return_acs), one real `_poisson` kernel call, or one kernel/helper call "
+        "compared with the model; generators x modes x ranks 3..5 x rows/cols from {8..80} incl. odd, even, non-square, single "
+        "frame; oracle additionally: argument forms (shape as tuple/list/torch.Size/ndarray, positional/keyword, mode and CIRCUS "
+        "scheme as enum/string), 10-call histories on one object sharing some but not all of (seed, rank, rows, cols, frames, "
+        "return_acs), the real callers (CreateSamplingMask, apply_mask, config-driven build with and without mode); "
+        "non-trivial = a generator call that returned a mask with at least two rows and columns (kernels: a non-degenerate "
+        "input; _poisson: at least one accepted candidate or an overrun); distinct = distinct protocol line")
 PENDING_FINDINGS: list[str] = ["generator-crashes/VariableDensityPoisson/active-list-overrun"]   # listed as known: for C04 by the lead (same key as C07)
 EXTRA_LEAN_MODULES = ["DirectVerif.Lemmas.C04List", "DirectVerif.Lemmas.C06Assemble", "DirectVerif.Lemmas.C04Loops",
-                      "DirectVerif.Lemmas.C04Interior"]
+                      "DirectVerif.Lemmas.C04Interior", "DirectVerif.Lemmas.C04Poisson", "DirectVerif.Lemmas.C04Circus"]
 
 _worker: G.Worker | None = None
 _fe_worker: G.Worker | None = None          # bounds-checked front-end kernels, for calls that can overrun `_poisson`
@@ -366,6 +398,44 @@ def poisson_gen_line(spec: dict, res: dict, cf):
                 res.get("crop", []), *groups)
 
 
+def bisection_trace_cases(spec: dict, res: dict):
+    """the bisection of a REAL `poisson(...)` call against the model's `bisect`: the verdict of every step is computed
+    from the real kernel masks (float glue), the model walks the dyadic slope grid with these verdicts; compared: the
+    number of kernel calls, the slope the loop ended on (read back from `radius_x` / `radius_y` of the last call),
+    and returned-vs-ValueError"""
+    frames = res.get("frames") or []
+    for k, fr in enumerate(frames):
+        v = fr.get("verdicts")
+        if not v or not fr.get("default_slopes") or "nx" not in fr or len(v) > 38:
+            continue
+        nx, ny = fr["nx"], fr["ny"]
+        hi = max(nx, ny)
+        raised = (not res.get("ok")) and k == len(frames) - 1
+        if raised and not (res.get("err") == "ValueError" and "Cannot generate mask" in res.get("msg", "")):
+            continue
+        if raised:
+            a = "err ValueError"
+        else:
+            # the slope of the last step: the float midpoints along the verdicts (the expressions of `poisson`); it is the
+            # slope the real call ended on iff it reproduces the radius tables the real last kernel call received
+            lo_s, hi_s, slope = 0, hi, None
+            for vv in v:
+                slope = (hi_s + lo_s) / 2
+                if vv == 0 or slope in (lo_s, hi_s):
+                    break
+                if vv == 1:
+                    lo_s = slope
+                else:
+                    hi_s = slope
+            rx, ry = P.radii(nx, ny, slope)
+            if P.flat_dy(rx) != fr["rx"] or P.flat_dy(ry) != fr["ry"]:
+                a = "err RadiusTablesNotFromSlope"
+            else:
+                a = "ok " + ints([fr["ncalls"], int(slope * 2 ** 40)])
+        yield {"line": line("bisect", [hi * 2 ** 40, 4000], v), "impl": (lambda a=a: a), "nontrivial": len(v) > 1,
+               "bucket": "gen/VariableDensityPoisson/bisection-trace/" + ("raises" if raised else "returns")}
+
+
 def circus_thresholds(rows: int, cols: int) -> list[int]:
     """floor(radius²) for the float radii 1, 1 + 0.1, … of the CIRCUS disc search, until well past the
     radius at which the disc covers the whole grid.  torch compares the integer tensor `d²` with the Python
@@ -404,9 +474,18 @@ def generator_cases(ctx: Ctx, per_gen: int, acs: bool):
                 par = ("o" if shape[-3] % 2 else "e") + ("o" if shape[-2] % 2 else "e")
                 ctx.hist[f"shape-parity/{par}"] = ctx.hist.get(f"shape-parity/{par}", 0) + 1
                 ctx.hist[f"rank/{len(shape)}"] = ctx.hist.get(f"rank/{len(shape)}", 0) + 1
+                if name in ("Radial", "Spiral") and s.get("cf") is None and res.get("ok") and res.get("rows") and not racs:
+                    # hypothesis of `circus_disc_returns_promptly` on the real pattern of every frame: 11·|mask| < 10·rows·cols
+                    rws, cls_ = shape[-3], shape[-2]
+                    fr = [res["rows"][i:i + rws] for i in range(0, len(res["rows"]), rws)]
+                    sparse = all(11 * sum(bin(v).count("1") for v in f_) < 10 * rws * cls_ for f_ in fr)
+                    kk = "circus-search/" + ("sparse-hypothesis-holds" if sparse else "dense-mask")
+                    ctx.hist[kk] = ctx.hist.get(kk, 0) + 1
                 if ln is None:
                     ctx.hist["gen-skipped/no-interior"] = ctx.hist.get("gen-skipped/no-interior", 0) + 1
                     continue
+                if name == "VariableDensityPoisson" and not racs and not acs:      # C04's own call only (C06 reuses this generator)
+                    yield from bisection_trace_cases(s, res)
                 a = answer(res)
                 yield {"line": ln, "impl": (lambda a=a: a), "nontrivial": res.get("ok", False),
                        "bucket": f"gen/{name}/{mode}/" + ("acs" if racs else "mask") + ("+opts" if s.get("extra") else "")
